@@ -318,6 +318,19 @@ func runC15(e *core.Env) error {
 			}
 		}
 		e.Add(core.Case{Impl: verdict, Spec: "rejected", Key: fmt.Sprintf("c15 source-name %d", hi), Nontrivial: true, Tags: []string{"source-name"}})
+		// a file that declares sources only (its integrations live in the database, stored through the
+		// dashboard, and refer to the file's sources by name): the source name is checked all the same
+		root2 := config.Root{Sources: []config.Source{{Name: mark + hostile[hi], ChainID: 7}}}
+		verdict = "rejected"
+		if config.ValidateFix(&root2) == nil {
+			sink := &sqlSink{}
+			c15Exercise(base, mark+hostile[hi], sink)
+			verdict = "accepted"
+			if l := sink.leak(); l != "" {
+				verdict = "MARKER IN SQL TEXT: " + trunc2(l)
+			}
+		}
+		e.Add(core.Case{Impl: verdict, Spec: "rejected", Key: fmt.Sprintf("c15 source-name-only-sources-in-file %d", hi), Nontrivial: true, Tags: []string{"source-name", "file-without-integrations"}})
 	}
 	// the real dashboard handlers must reject hostile identifiers before storing anything
 	{
